@@ -96,3 +96,184 @@ def _call_pyobj(ex, st, fv, args, kwargs, node):
 
 
 lib.call_pyobj = _call_pyobj
+
+
+# ---- `name in dataframe.columns` ---------------------------------------------------------------------
+@lib.hook('ref_contains')
+def _pdindex_contains(ex, st, container, item, node):
+    if _mine(ex) and container.kind == 'ref' and container.ty.cls == 'PdIndex':
+        ex.ctx.note('LIBSPEC-pd `label in df.columns`: uninterpreted membership pdindex_has(index, label)')
+        return VV.uf('pdindex_has', I, Val, VV.B)(as_ref(container), ex.box(st, item))
+    return None
+
+
+# ---- dict key views: `a.keys() != b.keys()`, `a.keys() - b.keys()` ---------------------------------------
+import ast as _ast
+
+from pyvc import symexec as _symexec
+
+
+def _keys_view(v):
+    return v.kind == 'py' and v.py and v.py[0] == 'dictview' and v.py[2] == 'keys'
+
+
+_orig_compare = _symexec.Executor.compare
+
+
+def _compare(self, st, op, l, r, node):
+    if _mine(self) and isinstance(op, (_ast.Eq, _ast.NotEq)) and _keys_view(l) and _keys_view(r):
+        self.ctx.note('LIBSPEC dict.keys() == dict.keys(): same key sets')
+        x = z3.Const(fresh_name('x'), Val)
+        same = z3.ForAll([x], st.dict_has(l.py[1], V(x, ANY)) == st.dict_has(r.py[1], V(x, ANY)))
+        return v_bool(same if isinstance(op, _ast.Eq) else z3.Not(same))
+    return _orig_compare(self, st, op, l, r, node)
+
+
+_symexec.Executor.compare = _compare
+
+_orig_binop = _symexec.Executor.binop
+
+
+def _binop(self, st, op, l, r, node):
+    if _mine(self) and isinstance(op, _ast.Sub) and _keys_view(l) and _keys_view(r) and not st.spec:
+        # only used to build the text of a message: abstracted to a new collection of unknown size and content
+        # (every behaviour of the real set difference is included)
+        self.ctx.note('LIBSPEC dict.keys() - dict.keys(): abstracted to a new collection of unknown content (message text only)')
+        dl = l.py[1]
+        n = VV.fresh_int('kdiff')
+        st.assume(n >= 0)
+        # an immutable sequence value (no allocation: the heap is untouched)
+        return lib.spec_seq(self, st, n, z3.Const(fresh_name('kdiffel'), z3.ArraySort(I, Val)),
+                            dl.ty.args[0] if len(dl.ty.args) == 2 else ANY)
+    return _orig_binop(self, st, op, l, r, node)
+
+
+_symexec.Executor.binop = _binop
+
+_orig_truth = _symexec.Executor.truth
+
+
+def _truth(self, st, v):
+    if _mine(self) and v.kind == 'py' and v.py and v.py[0] == 'specseq':
+        return v.py[1] > 0          # a sequence value is true iff it is not empty
+    return _orig_truth(self, st, v)
+
+
+_symexec.Executor.truth = _truth
+
+
+# ---- CUT: verify a prefix of a body, the rest is an abstract tail ------------------------------------------
+# CUTS[qualname] = anchor (source text the first tail statement starts with), the local lists the tail may only
+# append to, and the tuple of locals it returns.  ASSUMED about the tail (its syntactic part is the static
+# obligation C12:static:LogLogit.audit-tail of props/C12.py; its numeric content stays with the bounded harness):
+# it returns normally, only appends to the named lists and returns them.
+CUTS = {
+    'biogeme.expressions.logit_expressions.LogLogit.audit': {
+        'anchor': 'list_of_alternatives = list(self.util)',
+        'grows': ['list_of_errors', 'list_of_warnings'],
+        'returns': ['list_of_errors', 'list_of_warnings']},
+}
+
+_orig_exec_block = _symexec.Executor.exec_block
+
+
+def _abstract_tail(self, st, cut, line):
+    from pyvc.vals import v_tuple
+    for name in cut['grows']:
+        lst = st.locals[name]
+        r = as_ref(lst)
+        n0, a0 = st.read(r, '$len'), st.read(r, '$elems')
+        n1 = VV.fresh_int('taillen')
+        a1 = z3.Const(fresh_name('tailelems'), z3.ArraySort(I, Val))
+        j = z3.Int(fresh_name('j'))
+        st.assume(n1 >= n0)
+        st.pc.append(z3.ForAll([j], z3.Implies(z3.And(j >= 0, j < n0), z3.Select(a1, j) == z3.Select(a0, j))))
+        st.write(r, '$len', n1)
+        st.write(r, '$elems', a1)
+        lst.items = None
+        lst.tail = None
+    self.ctx.note('CUT: the statements after the early return of LogLogit.audit (numpy checks of the choice and the '
+                  'availabilities) are an ASSUMED tail: returns normally, only appends to its two lists')
+    return _symexec.Outcome('return', st, val=v_tuple([st.locals[n] for n in cut['returns']]), line=line)
+
+
+def _exec_block(self, st, stmts):
+    fr = self.frames[-1] if self.frames else None
+    if (fr is not None and self.ctx.prop == 'C12' and fr.depth == 0 and fr.func is not None
+            and fr.func.qualname in CUTS and stmts and any(stmts[0] is s for s in fr.func.node.body[:2])):
+        cut = CUTS[fr.func.qualname]
+        idx = [i for i, s in enumerate(stmts) if _ast.unparse(s).startswith(cut['anchor'])]
+        if len(idx) != 1:
+            raise Unsupported(f'CUT anchor `{cut["anchor"]}` not found exactly once in {fr.func.qualname}')
+        outs = _orig_exec_block(self, st, stmts[:idx[0]])
+        res = []
+        for o in outs:
+            res.append(_abstract_tail(self, o.st, cut, stmts[idx[0]].lineno) if o.kind == 'normal' else o)
+        return res
+    return _orig_exec_block(self, st, stmts)
+
+
+_symexec.Executor.exec_block = _exec_block
+
+
+# ---- `if a or b or c:` over operands of different kinds -----------------------------------------------------
+# The core evaluates a BoolOp to the VALUE of the deciding operand; when the operands have different kinds (a list,
+# then two sets) that value is untyped and its truth becomes uninterpreted, i.e. the test of the `if` is lost.  As the
+# test of an `if` only the truth matters: it is the disjunction / conjunction of the operands' truths (operands are
+# evaluated under the guard that the previous ones did not decide, as the core does).
+def _bool_test(self, st, node):
+    is_and = isinstance(node.op, _ast.And)
+    conds, pushed = [], 0
+    try:
+        for e in node.values:
+            v = _bool_test(self, st, e) if isinstance(e, _ast.BoolOp) else self.truth(st, self.ev(st, e))
+            conds.append(v)
+            st.guards.append(v if is_and else z3.Not(v))
+            pushed += 1
+    finally:
+        for _ in range(pushed):
+            st.guards.pop()
+    return z3.And(*conds) if is_and else z3.Or(*conds)
+
+
+_orig_s_If = _symexec.Executor._s_If
+
+
+def _s_If(self, st, node):
+    if not (_mine(self) and isinstance(node.test, _ast.BoolOp)):
+        return _orig_s_If(self, st, node)
+    c = z3.simplify(_bool_test(self, st, node.test))
+    if z3.is_true(c):
+        return self.exec_block(st, node.body)
+    if z3.is_false(c):
+        return self.exec_block(st, node.orelse)
+    s1 = st.copy()
+    s1.pc.append(c)
+    s2 = st.copy()
+    s2.pc.append(z3.Not(c))
+    return self.merge_outcomes(self.exec_block(s1, node.body) + self.exec_block(s2, node.orelse))
+
+
+_symexec.Executor._s_If = _s_If
+
+
+# ---- fuzzywuzzy.fuzz.ratio (only feeds a log message in dict_of_formulas.get_expression) ----------------------
+from pyvc.vals import INT as _INT
+
+lib.PURE_LIB.setdefault('fuzzywuzzy.fuzz.ratio', _INT)
+
+
+# ---- type(x) of an untyped value (only formatted into a message) -----------------------------------------------
+_orig_b_type = lib.BUILTINS['type']
+
+
+def _b_type(ex, st, args, kw, node):
+    try:
+        return _orig_b_type(ex, st, args, kw, node)
+    except Unsupported:
+        if _mine(ex):
+            return v_py(('c12typeof', args[0].t.get_id() if args[0].t is not None else 0))
+        raise
+
+
+lib.BUILTINS['type'] = _b_type
